@@ -79,6 +79,8 @@ enum XSecret {
     Eph(x25519_dalek::EphemeralSecret),
     Reu(x25519_dalek::ReusableSecret),
     Sta(x25519_dalek::StaticSecret),
+    /// an Ed25519 signing key used for key agreement: StaticSecret from to_scalar_bytes(), public key from to_montgomery()
+    Ed(x25519_dalek::StaticSecret, [u8; 32]),
 }
 type XCell = std::cell::RefCell<Option<XSecret>>;
 fn xs_party(e: &Value) -> Result<String, String> {
@@ -219,6 +221,11 @@ pub fn run(op: &str, e: &Value, ctx: &mut Ctx) -> Result<Value, String> {
             let s = match e["kind"].as_str().unwrap_or("static") {
                 "ephemeral" => XSecret::Eph(x25519_dalek::EphemeralSecret::random_from_rng(ScriptRng(sk.to_vec(), 0))),
                 "reusable" => XSecret::Reu(x25519_dalek::ReusableSecret::random_from_rng(ScriptRng(sk.to_vec(), 0))),
+                #[cfg(feature = "ed")]
+                "ed" => {
+                    let key = ed25519_dalek::SigningKey::from_bytes(&sk);
+                    XSecret::Ed(x25519_dalek::StaticSecret::from(key.to_scalar_bytes()), key.verifying_key().to_montgomery().to_bytes())
+                }
                 _ => XSecret::Sta(x25519_dalek::StaticSecret::from(sk)),
             };
             ctx.set(&xs_party(e)?, Reg::Any(std::rc::Rc::new(XCell::new(Some(s)))));
@@ -231,16 +238,18 @@ pub fn run(op: &str, e: &Value, ctx: &mut Ctx) -> Result<Value, String> {
         "xs.publish" => {
             let any = xs_secret(ctx, e)?;
             let cell = any.downcast_ref::<XCell>().ok_or("xs: not a secret")?;
+            // (what goes on the wire, what PublicKey::from(&secret) says)
             let pk = match cell.borrow().as_ref() {
-                Some(XSecret::Eph(s)) => Some(x25519_dalek::PublicKey::from(s)),
-                Some(XSecret::Reu(s)) => Some(x25519_dalek::PublicKey::from(s)),
-                Some(XSecret::Sta(s)) => Some(x25519_dalek::PublicKey::from(s)),
+                Some(XSecret::Eph(s)) => Some((x25519_dalek::PublicKey::from(s), x25519_dalek::PublicKey::from(s))),
+                Some(XSecret::Reu(s)) => Some((x25519_dalek::PublicKey::from(s), x25519_dalek::PublicKey::from(s))),
+                Some(XSecret::Sta(s)) => Some((x25519_dalek::PublicKey::from(s), x25519_dalek::PublicKey::from(s))),
+                Some(XSecret::Ed(s, m)) => Some((x25519_dalek::PublicKey::from(*m), x25519_dalek::PublicKey::from(s))),
                 None => None,
             };
             match pk {
-                Some(pk) => {
+                Some((pk, own)) => {
                     ctx.set(&xs_slot(e, "w")?, Reg::Bytes(pk.as_bytes().to_vec()));
-                    Ok(json!({"live": true, "u": jbytes(pk.as_bytes()), "to_bytes": jbytes(&pk.to_bytes())}))
+                    Ok(json!({"live": true, "u": jbytes(pk.as_bytes()), "to_bytes": jbytes(&own.to_bytes())}))
                 }
                 None => Ok(json!({"live": false})),
             }
@@ -312,6 +321,11 @@ pub fn run(op: &str, e: &Value, ctx: &mut Ctx) -> Result<Value, String> {
                 Some(XSecret::Sta(s)) => {
                     let r = s.diffie_hellman(&theirs);
                     *slot = Some(XSecret::Sta(s));
+                    Some(r)
+                }
+                Some(XSecret::Ed(s, m)) => {
+                    let r = s.diffie_hellman(&theirs);
+                    *slot = Some(XSecret::Ed(s, m));
                     Some(r)
                 }
                 None => None,
